@@ -33,7 +33,8 @@ func (t tree) line() string {
 
 // flowTok: a valid flow, short (v) or long (w) file
 func flowTok(r *prng.R) string {
-	return prng.Pick(r, []string{"v", "v", "w"}) + fmt.Sprint(r.Range(1, 3))
+	// v short file, w long file, b with a processor that needs the request body
+	return prng.Pick(r, []string{"v", "v", "w", "b"}) + fmt.Sprint(r.Range(1, 3))
 }
 
 func genTree(r *prng.R) tree {
@@ -169,7 +170,8 @@ func genPayload(r *prng.R, t tree, shape int) []item {
 		items = append(items, item{"g", fmt.Sprintf("g%d", r.Range(1, 2))})
 	}
 	if pick(35) {
-		items = append(items, item{"um", fmt.Sprintf("m%d", r.Range(1, 2))})
+		// m<k>: the loaded metrics configuration (+ a comment); n<k>: a file that extends it by one metric
+		items = append(items, item{"um", prng.Pick(r, []string{"m", "m", "n"}) + fmt.Sprint(r.Range(1, 2))})
 	}
 	set := func(l, tok string) {
 		for i := range items {
@@ -204,7 +206,9 @@ func genPayload(r *prng.R, t tree, shape int) []item {
 		sort.Strings(ls)
 		for _, l := range ls {
 			tok := strings.Split(t[l], "~")[0] // a linked entry: the token read through the link
-			if l != "dm" && tok != "" && r.Chance(70) {
+			// (not the target of a `~in` link: writing it would change what the link shows — aliasing the
+			// model does not carry)
+			if l != "dm" && tok != "" && !strings.Contains(l, "/lnk/") && r.Chance(70) {
 				items = append(items, item{l, tok})
 			}
 		}
@@ -241,6 +245,15 @@ func putLine(ep, method, body string, items []item, fault string, gate bool, cor
 // faultPositions enumerates every fault position that exists for this payload, tree and endpoint.
 func faultPositions(r *prng.R, ep string, t tree, items []item) []string {
 	fs := []string{"none", "backup", "rread", "haproxy:1", "haproxy:2"}
+	// the proxy refuses ONE named admin call of the endpoints of one file
+	for _, it := range items {
+		if strings.HasPrefix(it.logical, "f/") && !strings.Contains(it.logical[2:], "/") && it.tok != "@" {
+			fs = append(fs, "hacall:managed:"+it.logical)
+			if it.tok[0] == 'b' {
+				fs = append(fs, "hacall:body:"+it.logical)
+			}
+		}
+	}
 	if ep == "apply_flows" {
 		fs = append(fs, "clean:g", "clean:um")
 	}
@@ -444,7 +457,27 @@ func genDelayed(r *prng.R, t tree, kind int) []string {
 	}
 	var ops []string
 	add := func(p string) { ops = append(ops, p, "ls", "probe "+probeSet) }
-	switch kind % 4 {
+	switch kind % 6 {
+	case 4: // the proxy refuses one admin call of a new flow that needs the body: refused, rolled back
+		items := flows(r.Range(1, 2))
+		items[0].tok = "b" + fmt.Sprint(r.Range(1, 3))
+		call := prng.Pick(r, []string{"managed", "body"})
+		sortItems(items)
+		var bl string
+		for _, it := range items {
+			if it.tok[0] == 'b' {
+				bl = it.logical
+			}
+		}
+		add(putLine(prng.Pick(r, eps), "PUT", "items", items, "hacall:"+call+":"+bl, r.Chance(25), co()))
+		ops = append(ops, "managed", "tick", "managed")
+		add(put(prng.Pick(r, eps), flows(1)))
+		ops = append(ops, "tick", "managed")
+	case 5: // accepted pushes carrying metrics files that extend the loaded configuration
+		add(put(prng.Pick(r, eps), append(flows(r.Range(1, 2)), item{"um", "n" + fmt.Sprint(r.Range(1, 2))})))
+		ops = append(ops, "tick", "managed")
+		add(put(prng.Pick(r, eps), append(flows(1), item{"um", prng.Pick(r, []string{"m1", "n2", "bad"})})))
+		ops = append(ops, "tick", "managed")
 	case 0: // switched, then the metrics reload fails: restored and reloaded
 		add(put(prng.Pick(r, eps), append(flows(r.Range(1, 2)), item{"um", prng.Pick(r, []string{"bad", "xjunk"})})))
 		ops = append(ops, "managed", "tick", "managed")
@@ -469,7 +502,7 @@ func genDelayed(r *prng.R, t tree, kind int) []string {
 func gen(r *prng.R, f proto.Flags, emit func(proto.Case)) {
 	payloads := 90
 	if f.Tier == "thorough" {
-		payloads = 450
+		payloads = 380
 	}
 	payloads *= f.Budget
 	id := 0
